@@ -99,6 +99,9 @@ class NPLinalg:
         return A.matmul(minv(a), b)
 
 
+_SYMCACHE = {}
+
+
 def minv(m):
     """uninterpreted matrix inverse of the last two axes; congruent in M"""
     if not isinstance(m, Arr) or m.ndim < 2:
@@ -117,6 +120,16 @@ def minv(m):
         else:
             body = P(m.fn(*(b + [vi, vj])))
         lam = T.close_raw("lam", vi, None, T.close_raw("lam", vj, None, body))
+        if P(n).as_int() != 1:
+            # the inverse of a symmetric matrix is symmetric (trusted): canonical order of the two indices
+            key = ("sym", lam.key)
+            sym_ = _SYMCACHE.get(key)
+            if sym_ is None:
+                sym_ = T.equal(body, P(m.fn(*(b + [vj, vi]))))
+                _SYMCACHE[key] = sym_
+            if sym_ and not T.equal(P(i), P(j)):
+                # symmetric in (i, j) by construction, whatever the names of the index variables
+                return (T.app("minv", n, lam, i, j) + T.app("minv", n, lam, j, i)) * Fraction(1, 2)
         return T.app("minv", n, lam, i, j)
     return Arr(m.shape, fn, "real", m.kind)
 
